@@ -143,6 +143,12 @@ func focusedWithShapes() []string {
 		"with a as b, b as a order by id(a) return a, b",
 		"with distinct a as b, b as a return a, b",
 		"with a as b, b as a, count(*) as c return a, b, c",
+		"with a, a as c return a, c",                  // one binding under its own name and, after that, under a second name
+		"with a as a, a as c return a, c",
+		"with a, a as c, b return a, b, c",
+		"with b, a, b as c, a as d return a, b, c, d",
+		"with a as c, a return a, c",                  // … the renamed copy first (control)
+		"with a, a.name as x, a as c return c, x",
 	}
 	for _, h := range heads {
 		for _, w := range withs {
@@ -155,6 +161,7 @@ func focusedWithShapes() []string {
 		"with c as a, a as b, b as c return a, b, c",
 		"with a as b, b as a, c return a, b, c",
 		"with r as q, q as r return r, q", // relationship swap
+		"with r, r as q2, a return a, r, q2",
 		"with a as c, c as a match (a)-[:EdgeKind1]->(d) return a, c, d",
 	} {
 		out = append(out, three+" "+w)
